@@ -25,7 +25,8 @@ REQUIRED = ["prep_checked:dominion", "prep_checked:hart", "prep_rejections_check
             "manifest_counts_stored_unsigned_narrow_or_float", "manifest_already_carries_a_cumulative_count_column",
             "sample_given_as_a_series_with_other_row_labels", "cvrs_whose_tally_pool_is_not_their_own_batch",
             "lookups_in_a_manifest_whose_phantom_batch_is_not_the_last_row",
-            "sample_given_as_a_one_pass_iterator"]
+            "sample_given_as_a_one_pass_iterator",
+            "hart_manifests_with_a_real_batch_named_like_the_phantom_batch"]
 ASSUMPTIONS = ["unique (tabulator, batch) labels per manifest", "Dominion lookup is 1-based, Hart lookup 0-based, as each "
                "vendor module documents and its test pins", "phantom CVR ids use the documented prefix 'phantom-1-'"]
 N_CASES = {"quick": 8000, "thorough": 64000}
@@ -106,7 +107,8 @@ def _frames(case, vendor, pd, sizes):
                              "VBMCart.Cart number": [1 + i // 4 for i in range(len(sizes))]})
     return pd.DataFrame({"Container": [f"box{i // 2}" for i in range(len(sizes))],
                          "Tabulator": [f"tab{i // 3}" for i in range(len(sizes))],
-                         "Batch Name": [f"B{i + 1}" for i in range(len(sizes))],
+                         # (batches may simply be numbered: the phantom batch that preparation appends is "1" as well)
+                         "Batch Name": [(str(i + 1) if case.get("numeric_batches") else f"B{i + 1}") for i in range(len(sizes))],
                          "Number of Ballots": sizes})
 
 
@@ -126,6 +128,7 @@ def run_shard(spec, rec):
         case["stale_cum"] = rng.random() < 0.15
         case["sample_container"] = rng.choice(("list", "list", "array", "series", "series_relabelled", "iterator"))
         case["tally_pool_mode"] = rng.choice((None, None, "own", "merged", "precinct"))
+        case["numeric_batches"] = rng.random() < 0.25
         run_case(case, rec)
 
 
@@ -156,6 +159,8 @@ def run_case(case, rec):
         rec.count("manifest_counts_stored_unsigned_narrow_or_float")
     if case.get("stale_cum"):
         rec.count("manifest_already_carries_a_cumulative_count_column")
+    if case.get("numeric_batches") and vendor == "hart" and bound > sum(sizes):
+        rec.count("hart_manifests_with_a_real_batch_named_like_the_phantom_batch")
     if case.get("index_mode", "default") != "default":
         rec.count("manifest_row_labels_not_0_to_n" + ("_and_no_phantom_batch" if bound == total else ""))
     tabcol, batchcol, sizecol = (("Tabulator Number", "Batch Number", "Total Ballots") if vendor == "dominion"
